@@ -83,7 +83,7 @@ CHECKS.update(
         "C14": (
             "Hypothesis-generated universes/dates/parameters per selection algo vs an independent reference on raw arrays (validity predicate for ranked selection)",
             "For each of the 13 selection/statistic algos, generated universes with late listings, NaN gaps, zero/negative prices and ties, generated prior temp contents and all parameter "
-            "combinations; temp['selected']/temp['stat'] right after the call is compared with a reference that never touches pandas windows.",
+            "combinations; temp['selected']/temp['stat'] right after the call is compared with a reference that never touches pandas windows; SelectActive also inside real backtests with maturity dates and a date-varying signal.",
             "include_no_data=True disables both tradability filters; look-back windows at least as long as the largest calendar gap; frames only name universe tickers.",
             "5/C14",
         ),
@@ -115,7 +115,7 @@ CHECKS.update(
         "C09": (
             "differential pairs of whole runs: every sub-strategy of a generated nested backtest vs a stand-alone Backtest of the same definition (Hypothesis-generated)",
             "Generated nested backtests with deterministic calendar-gated children and arbitrary parents/allocation schedules; each sub-strategy's index is compared date for date with the "
-            "index of a stand-alone backtest of the same definition, and with the column the parent sees.",
+            "index of a stand-alone backtest of the same definition, and with the column the parent sees; one family ends every child's stack with a stateful algo (RebalanceOverTime marked run_always).",
             "Children use no RNG algos and a calendar gate (the statement's quantifier); definitions that go bankrupt (leveraged / short children) are compared too.",
             "5/C09",
         ),
@@ -140,7 +140,7 @@ CHECKS.update(
             "Hypothesis-generated construction/run schedules over one template with deep fingerprint and differential oracles; same spec across fresh processes with different PYTHONHASHSEED",
             "Generated schedules (1-3 backtests from one template, any construction/run order, repeated run()) with deep fingerprints of template and input frames and a differential "
             "comparison against a lone backtest (grammar, fixed-income, unit-risk, close/roll-table and TargetVol/PTE families); benchmark_random must leave its template alone; generated specs "
-            "re-executed in fresh interpreter processes under several hash seeds must give bit-identical histories (own family: targets shrinking under LimitDeltas with commissions).",
+            "re-executed in fresh interpreter processes under several hash seeds must give bit-identical histories (own family: targets shrinking under LimitDeltas with commissions); sub-strategies opened during a run leave the caller's frame and Backtest.data unchanged.",
             "random / numpy.random are seeded from the spec immediately before each run; the harness owns process creation.",
             "5/C11",
         ),
@@ -165,7 +165,7 @@ CHECKS.update(
         "C18": (
             "Hypothesis-generated finished backtests with every report recomputed independently from node histories; round-trip of the transaction list through ReplayTransactions",
             "For generated finished backtests (flat/nested, shared tickers, multipliers, no-trade and no-security runs, shorts, spreads) each report is recomputed from the node histories; the "
-            "transaction list of zero-commission runs is replayed into a fresh flat strategy and must reproduce positions and values.",
+            "transaction list of zero-commission runs is replayed into a fresh flat strategy and must reproduce positions and values; fixed-income runs: positions, cumulated transactions and notional weights.",
             "Replay preconditions as in the repository's replay tests; same-date trades netting to zero in one ticker are an open finding (F29: predicate + witness in known_findings.json), counted and excluded.",
             "5/C18",
         ),
@@ -177,7 +177,7 @@ CHECKS.update(
         "C06": (
             "Hypothesis-generated prior portfolios, targets, cash fractions and cost models; Rebalance / RebalanceOverTime outcome vs target-weight oracle",
             "Generated prior portfolios (long/short, multipliers, optional funded sub-strategy with holdings), price moves, target vectors, cash fractions, integer or fractional positions and "
-            "cost models, optionally a CapitalFlow booked right before; after Rebalance the weights/values/cash fraction are compared with the stated targets; RebalanceOverTime is driven step by step against the expected gap schedule.",
+            "cost models, optionally a CapitalFlow booked right before; after Rebalance the weights/values/cash fraction are compared with the stated targets (fixed-income books: every target's notional == weight x notional base); RebalanceOverTime is driven step by step against the expected gap schedule.",
             "Costs entering the slack are all costs of the rebalance (fees + spread); exact relations only for fractional cost-free runs.",
             "5/C06",
         ),
